@@ -40,6 +40,7 @@ func main() {
 	runRim2(f, res)
 	runRim3(f, res)
 	runRim4(f, res)
+	runRim5(f, res)
 	runModels(f, res)
 	if err := res.Write(f.Out); err != nil {
 		lib.Fatal(err)
@@ -95,8 +96,16 @@ func replay(f lib.Flags) int {
 		if err := json.Unmarshal(b, &es); err != nil {
 			lib.Fatal(err)
 		}
-		runValueEventSeq(es, m)
+		runValueEventSeq(es, nil, m, nil)
 		fmt.Printf("replay core-events (Value) seq=%d seed=%d steps=%d\n", es.Seq, es.Seed, es.Steps)
+	case "positions":
+		var c positionsCase
+		if err := json.Unmarshal(b, &c); err != nil {
+			lib.Fatal(err)
+		}
+		ans := runPositionsCase(c)
+		positionsViolation(c, ans, m)
+		fmt.Printf("replay positions %v -> %s\n", c, ans)
 	case "plant":
 		var c plantCase
 		if err := json.Unmarshal(b, &c); err != nil {
